@@ -230,7 +230,12 @@ func runGlob1(m *Model, r *RuleResult) {
 			} else {
 				init = v.spec.Values[0]
 			}
-			problems = append(problems, m.initialiserProblems(m.ByPath[v.pkg], init, 0)...)
+			ip := m.initialiserProblems(m.ByPath[v.pkg], init, 0)
+			if len(ip) > 0 && m.isReadOnlyConstantTable(g, v.obj.Type()) {
+				// a look-up table of constants / function values that is only ever read (indexed, looked up, ranged, len)
+				ip = nil
+			}
+			problems = append(problems, ip...)
 		}
 		var visitAddr func(addr ssa.Value, fn *ssa.Function, depth int)
 		checkStore := func(st ssa.Instruction, fn *ssa.Function) {
@@ -988,4 +993,90 @@ func (m *Model) initialiserProblems(p *packages.Package, init ast.Expr, depth in
 		return true
 	})
 	return problems
+}
+
+// isReadOnlyConstantTable: the package-level variable g is a map or slice whose elements carry no mutable reference
+// (basic types, function values, structs of those) and every load of it in the program is only read: Lookup, Index,
+// IndexAddr + load, Range, len/cap. Such a table is shared, but immutable.
+func (m *Model) isReadOnlyConstantTable(g *ssa.Global, t types.Type) bool {
+	var elem types.Type
+	switch u := t.Underlying().(type) {
+	case *types.Map:
+		elem = u.Elem()
+		if immutableElem(u.Key(), 0) == false {
+			return false
+		}
+	case *types.Slice:
+		elem = u.Elem()
+	case *types.Array:
+		elem = u.Elem()
+	default:
+		return false
+	}
+	if !immutableElem(elem, 0) {
+		return false
+	}
+	ok := true
+	for _, f := range m.Funcs {
+		if isPkgInit(f) {
+			continue
+		}
+		eachInstr(f, func(in ssa.Instruction) {
+			u, isU := in.(*ssa.UnOp)
+			if isU && u.Op == token.MUL && u.X == ssa.Value(g) {
+				if u.Referrers() == nil {
+					return
+				}
+				for _, ref := range *u.Referrers() {
+					switch x := ref.(type) {
+					case *ssa.Lookup, *ssa.Index, *ssa.Range, *ssa.DebugRef:
+					case *ssa.IndexAddr:
+						for _, r2 := range *x.Referrers() {
+							if l2, isL := r2.(*ssa.UnOp); !isL || l2.Op != token.MUL {
+								ok = false
+							}
+						}
+					case ssa.CallInstruction:
+						if b, isB := x.Common().Value.(*ssa.Builtin); !isB || (b.Name() != "len" && b.Name() != "cap") {
+							ok = false
+						}
+					default:
+						ok = false
+					}
+				}
+				return
+			}
+			// any other use of the global's address (store, address escaping)
+			for _, op := range in.Operands(nil) {
+				if op != nil && *op == ssa.Value(g) {
+					if st, isSt := in.(*ssa.Store); isSt && st.Addr == ssa.Value(g) {
+						ok = false
+					} else if !isU {
+						ok = false
+					}
+				}
+			}
+		})
+	}
+	return ok
+}
+
+func immutableElem(t types.Type, depth int) bool {
+	if depth > 3 {
+		return false
+	}
+	switch u := t.Underlying().(type) {
+	case *types.Basic, *types.Signature:
+		return true
+	case *types.Struct:
+		for i := 0; i < u.NumFields(); i++ {
+			if !immutableElem(u.Field(i).Type(), depth+1) {
+				return false
+			}
+		}
+		return true
+	case *types.Array:
+		return immutableElem(u.Elem(), depth+1)
+	}
+	return false
 }
